@@ -39,7 +39,7 @@ def C17_full : Prop :=
 /-! ### the repair is present in the source (regenerated table entries) -/
 
 theorem fix_present : Fixed WalFrame.Cfg.current :=
-  ⟨by decide, by decide, by decide, by decide, by decide, ⟨Or.inr (by decide), by decide⟩⟩
+  ⟨by decide, by decide, by decide, by decide, by decide, by decide, ⟨Or.inr (by decide), by decide⟩⟩
 
 theorem current_is_ideal :
     WalFrame.Cfg.current = WalFrame.Cfg.ideal WalRec.Cfg.current WalFrame.Cfg.current.maxLen := by decide
@@ -76,7 +76,7 @@ theorem any_tail_recover (rs : List Rec) (file t : Bytes) (hw : Written rs file)
       | .ok txs => .ok txs
       | .error e => .error (.proto e) := by
   unfold recover
-  rw [any_tail_read rs file t hw]
+  rw [any_tail_read rs file t hw, committedCfg_eq fix_present.resets]
   cases committed (rs ++ (complete t).1) <;> rfl
 
 /-- **any tail** (the trigger hypothesis `ProtoOk` is exactly "no known finding": the completely written
@@ -171,6 +171,27 @@ theorem no_resurrection (f : Bytes) (r : Rec) (ns : List Rec) (hn : ∀ q ∈ r 
   have hfr := appendAll_any_file fix_present f r ns hn h' ha
   exact ⟨hfr, by rw [readAll_frames_append fix_present.cap hfr t', read_total t']⟩
 
+/-- **replay is positional** (the replay-level counterpart of `no_resurrection`, over ALL record lists, txids may
+    repeat): if a record list replays, every complete block `BeginTx x, ops…, CommitTx x` in it is handed out with
+    exactly `ops` — unfinished fragments before it, under the same txid `x` or any other, contribute nothing —
+    and the transactions before it are those of the records before it. -/
+theorem replay_positional (pre post : List Rec) (x : Nat) (ops : List Rec) (hops : ∀ r ∈ ops, Rec.isOp r = true)
+    (txs : List Tx) (h : committedCfg WalFrame.Cfg.current (pre ++ txBlock x ops ++ post) = .ok txs) :
+    ∃ a b, committed pre = .ok a ∧ txs = a ++ ⟨x, ops⟩ :: b := by
+  rw [committedCfg_eq fix_present.resets] at h
+  exact commitGo_block x ops hops post pre none [] [] txs h
+
+/-- in particular a torn transaction `BeginTx y, ops₀…` (no commit) followed — after recovery handed the id out
+    again — by a committed transaction with the SAME or another txid: replay yields the old transactions and the
+    new one with ONLY its own operations.  Nothing of the torn transaction surfaces. -/
+theorem torn_then_commit_is_clean (rs ops₀ ops : List Rec) (y x : Nat) (txs₀ : List Tx)
+    (h0 : committed rs = .ok txs₀) (hops₀ : ∀ r ∈ ops₀, Rec.isOp r = true)
+    (hops : ∀ r ∈ ops, Rec.isOp r = true) :
+    committedCfg WalFrame.Cfg.current ((rs ++ (.beginTx y :: ops₀)) ++ txBlock x ops) = .ok (txs₀ ++ [⟨x, ops⟩]) := by
+  rw [committedCfg_eq fix_present.resets]
+  have h1 := commitGo_fragment y ops₀ hops₀ rs none [] [] txs₀ h0
+  exact commitGo_durable x ops hops (rs ++ (.beginTx y :: ops₀)) none [] [] txs₀ h1
+
 /-- **append after any tail**: a transaction committed after reopening on `file ++ t` is recovered by the next
     open — with its exact operations, right after everything recovered before — whatever second tail `t'`
     (without a complete record at its head) a later crash leaves.  Trigger hypothesis as in `any_tail_partial`. -/
@@ -194,7 +215,7 @@ theorem append_after_tail_partial (rs : List Rec) (file t : Bytes) (hw : Written
   have ha' : appendAll WalFrame.Cfg.current (walOpen (file ++ t)) (Rec.beginTx x :: (ops ++ [.commitTx x])) = .ok h' := ha
   have hread := append_after_tail_read rs file t hw (.beginTx x) (ops ++ [.commitTx x]) hwf h' ha' t'
   unfold recover
-  rw [hread, hc', List.append_nil]
+  rw [hread, hc', List.append_nil, committedCfg_eq fix_present.resets]
   have hd := commitGo_durable x ops (fun r hr => (hops r hr).2) (rs ++ (complete t).1) none [] [] _
     (committed_of_proto _ hp)
   unfold committed
@@ -244,6 +265,14 @@ theorem C17_counterexample_protocol_violating_frames : ¬ C17_full := by
   have : recover WalFrame.Cfg.current ([] ++ frame [2, 7, 0, 0, 0, 0, 0, 0, 0]) = .error (.proto .commitWithoutBegin) := by
     decide +kernel
   rw [this] at hr; cases hr
+
+/-- a replay that does not reset its buffer at `BeginTx` (the shape the `TxAssembler` seed has for a reused txid)
+    hands the torn transaction's operation out with the new transaction: why the reset is part of the tie -/
+theorem replay_without_reset_leaks :
+    commitGoKeep none [] [] [.beginTx 2, .tombstoneNode 7, .beginTx 2, .createEdge 1 1 1, .commitTx 2]
+      = .ok [⟨2, [.tombstoneNode 7, .createEdge 1 1 1]⟩] ∧
+    committed [.beginTx 2, .tombstoneNode 7, .beginTx 2, .createEdge 1 1 1, .commitTx 2]
+      = .ok [⟨2, [.createEdge 1 1 1]⟩] := by decide
 
 /-- pinned tree, zero tail: `len = 0, crc = 0` parses as a frame whose empty body is a decode ERROR -/
 theorem C17_counterexample_zero_tail :
